@@ -170,13 +170,14 @@ def _cond_table(ctx, f, cfg, ack, want):
             tables, polarity = MENTIONS[const]
             conds = cfg.dominating_conditions(n)
             expanded = [(rules.expand(f.node, t), v) for t, v in conds]
-            hit = False
-            for txt, v in expanded:
-                if all(tb in txt for tb in tables):
-                    has_not = " not in " in txt
-                    eff = ("not in" if has_not else "in") if v else ("in" if has_not else "not in")
-                    if eff == polarity:
-                        hit = True
+            # canonical membership atoms of the (expanded) tests that dominate the assignment: `x in T` with a polarity,
+            # whatever the spelling; a false conjunction / true disjunction decides nothing about one membership
+            atoms = set()
+            for t, v in conds:
+                for atom, pol in cnd.canon(rules.expand_ast(f.node, t), v):
+                    if not atom.startswith("ALL[") and " in " in atom:
+                        atoms.add((atom, pol))
+            hit = all(any(tb in a_txt and ("in" if a_pol else "not in") == polarity for a_txt, a_pol in atoms) for tb in tables)
             ctx.ob("C12.T1", f.qualname, hit, f"{const} is reported when the id is {polarity} {' / '.join(tables)}" if hit else
                    f"{const} is reported under {[(t, v) for t, v in expanded]}, which is not the test `id {polarity} {' / '.join(tables)}`", key="cond " + const, where=f.where)
             # the guarding test is evaluated for every entry unless the path refuses anyway
